@@ -279,13 +279,15 @@ def tri_mesh(rng, n=None, style=None, renum=True, holes=None, floor=2.0 ** -10, 
 
 # ---------------------------------------------------------- quadrilaterals
 def _quad_convex(p, t):
-    """All four corner cross products have one sign (either orientation) and are not tiny."""
+    """All four corner cross products have one sign (either orientation) and every corner angle is well away from
+    0 and 180 degrees (|sin| >= 0.15), so that thin, nearly collinear quadrilaterals are not produced."""
     crs = []
     for i in range(4):
         a, b, c = p[:, t[i]], p[:, t[(i + 1) % 4]], p[:, t[(i + 2) % 4]]
-        crs.append((b[0] - a[0]) * (c[1] - b[1]) - (b[1] - a[1]) * (c[0] - b[0]))
+        cr = (b[0] - a[0]) * (c[1] - b[1]) - (b[1] - a[1]) * (c[0] - b[0])
+        crs.append(cr / (np.linalg.norm(b - a, axis=0) * np.linalg.norm(c - b, axis=0) + 1e-300))
     crs = np.array(crs)
-    return ((crs > 1e-6).all(axis=0)) | ((crs < -1e-6).all(axis=0))
+    return ((crs > 0.15).all(axis=0)) | ((crs < -0.15).all(axis=0))
 
 
 def quad_mesh(rng, style=None, renum=True, n=None, build=True):
